@@ -457,8 +457,9 @@ func (doc *T) derefPaths(paths map[string]*PathItem, refNameResolver RefNameReso
 		ops := paths[name]
 		pathIsExternal := isExternalRef(ops.Ref, parentIsExternal)
 		// inline the full operations of a path item taken from another file; a reference that stays
-		// inside the document is kept (the path item it names may be reached again from below itself)
-		if pathIsExternal {
+		// inside the document ("#/paths/...") is kept (the path item it names may be reached again from
+		// below itself)
+		if ops.Ref != "" && (!strings.HasPrefix(ops.Ref, "#") || parentIsExternal) {
 			ops.Ref = ""
 		}
 
